@@ -418,18 +418,32 @@ def cmp_cart(got, want):
     return ~(d <= TOL_M), {"pos_err_m": d}
 
 
-def _cls(E, X, H):
-    """classifier for a failing element of an answer H = (h, lat, lon) to the cartesian point X"""
+def _cls(E, X, H, want=None, X2=None):
+    """classifier for a failing element of an answer H = (h, lat, lon) to the cartesian point X.
+    The stop-criterion mechanism is only named when it explains the observed discrepancy: the
+    forward map that produced X from `want` (or X2 from H) must itself agree with the model."""
     def cls(i, shape):
-        return classify_inverse(E, _elem(X[0], shape, i), _elem(X[1], shape, i), _elem(X[2], shape, i),
-                                _elem(H[0], shape, i), _elem(H[1], shape, i), _elem(H[2], shape, i), None)
+        x, y, z = (_elem(v, shape, i) for v in X)
+        h, lat, lon = (_elem(v, shape, i) for v in H)
+        try:
+            if want is not None:
+                ref = M.geodetic_to_ecef(E[0], E[1], *(_elem(v, shape, i) for v in want))
+                if not (M.dist3(ref, (x, y, z)) <= M.LD("1e-4")):
+                    return None
+            if X2 is not None:
+                ref = M.geodetic_to_ecef(E[0], E[1], h, lat, lon)
+                if not (M.dist3(ref, tuple(_elem(v, shape, i) for v in X2)) <= M.LD("1e-4")):
+                    return None
+        except Exception:
+            return None
+        return classify_inverse(E, x, y, z, h, lat, lon, None)
     return cls
 
 
 def _cart_part(F, E, X, H2):
     """cart -> geodetic -> cart, cart -> geocentric -> cart -> geocentric for X (H2 = cart2geodetic(X))."""
     X2 = call(F, "geodetic2cart", *H2, E)
-    F.check("roundtrip-cart-geodetic-cart", *cmp_cart(X2, X), classify=_cls(E, X, H2))
+    F.check("roundtrip-cart-geodetic-cart", *cmp_cart(X2, X), classify=_cls(E, X, H2, X2=X2))
     G = call(F, "cart2geocentric", *X)
     X3 = call(F, "geocentric2cart", *G)
     F.check("roundtrip-cart-geocentric", *cmp_cart(X3, X))
@@ -442,18 +456,22 @@ def seq_conv(ell, A):
     F = Fails()
     E = _S["ells"][ell]
     h, lat, lon = A["h"], A["lat"], A["lon"]
+    # the documented default (ellipsoid=None -> WGS84) is exercised on the small WGS84 calls
+    Ea = () if (ell == "WGS84" and A.get("_tag") in ("scalar", "small")) else (E,)
     try:
-        X = call(F, "geodetic2cart", h, lat, lon, E)
-        H2 = call(F, "cart2geodetic", *X, E)
-        F.check("roundtrip-geodetic-cart-geodetic", *cmp_sph(H2, (h, lat, lon)), classify=_cls(E, X, H2))
+        X = call(F, "geodetic2cart", h, lat, lon, *Ea)
+        H2 = call(F, "cart2geodetic", *X, *Ea)
+        F.check("roundtrip-geodetic-cart-geodetic", *cmp_sph(H2, (h, lat, lon)),
+                classify=_cls(E, X, H2, want=(h, lat, lon)))
         G = _cart_part(F, E, X, H2)
-        Gd = call(F, "geodetic2geocentric", h, lat, lon, E)
+        Gd = call(F, "geodetic2geocentric", h, lat, lon, *Ea)
         F.check("composed-vs-direct", *cmp_sph(Gd, G))
-        Hd = call(F, "geocentric2geodetic", *G, E)
+        Hd = call(F, "geocentric2geodetic", *G, *Ea)
         F.check("composed-vs-direct", *cmp_sph(Hd, H2))
-        F.check("roundtrip-geodetic-geocentric", *cmp_sph(Hd, (h, lat, lon)), classify=_cls(E, X, Hd))
-        Gdd = call(F, "geodetic2geocentric", *Hd, E)
-        F.check("roundtrip-geodetic-geocentric", *cmp_sph(Gdd, G))
+        F.check("roundtrip-geodetic-geocentric", *cmp_sph(Hd, (h, lat, lon)),
+                classify=_cls(E, X, Hd, want=(h, lat, lon)))
+        Gdd = call(F, "geodetic2geocentric", *Hd, *Ea)
+        F.check("roundtrip-geodetic-geocentric", *cmp_sph(Gdd, G), classify=_cls(E, X, Hd, want=(h, lat, lon)))
     except Abort:
         pass
     return F
